@@ -349,6 +349,8 @@ pub struct CallCfg {
     pub idempotent: bool,
     pub consistency: Option<Consistency>,
     pub profile: Option<ExecutionProfileHandle>,
+    /// statement-level retry policy (`set_retry_policy`); overrides whatever the profiles say
+    pub retry_policy: Option<Arc<dyn RetryPolicy>>,
 }
 
 /// What the caller got: the rows it was handed before the end / the error, and the failure name if it failed.
@@ -397,6 +399,7 @@ pub async fn call(session: &Session, st: &Stmts, cfg: &CallCfg) -> CallOut {
                 $s.set_consistency(c);
             }
             $s.set_execution_profile_handle(cfg.profile.clone());
+            $s.set_retry_policy(cfg.retry_policy.clone());
         }};
     }
     let unpaged = |r: Result<scylla::response::query_result::QueryResult, ExecutionError>, out: &mut CallOut| match r {
